@@ -351,6 +351,121 @@ with pcore_d (ps : prog) : bool :=
   | _ => false
   end.
 
+(* ---- the resolver with auxiliary scopes merged into their main scopes ------------------------------------------ *)
+(* The parser has ONE Scope where ECMAScript has an auxiliary scope in front of a main scope (the name of a
+   function / class expression, the let/const of a loop head).  [erase] forgets which of the two a binding is
+   in; [resolve_m] is the resolver that never distinguishes them.  Bridge.erase_resolve:
+   map erase (resolve ...) = resolve_m ...; the two induce the same partition of the occurrences exactly when
+   no name is bound both in an auxiliary scope and in its main scope ([aux_distinct]). *)
+Definition erase (t : target) : target :=
+  match t with TGlobal x => TGlobal x | TBind s _ x => TBind s false x end.
+
+Fixpoint resolve_m (e : env) (fs cur : nat) (ca : bool) (n : nat) (p : prog) : list target * nat :=
+  match p with
+  | Done => ([], n)
+  | Ref x k | PRef x k =>
+      let '(r, n1) := resolve_m e fs cur ca n k in (lookup e x :: r, n1)
+  | Decl d x k =>
+      let '(r, n1) := resolve_m e fs cur ca n k in
+      ((if is_var d then TBind fs false x else TBind cur false x) :: r, n1)
+  | Block b k =>
+      let '(rb, n1) := resolve_m ((n, false, lexdecls b) :: e) fs n false (S n) b in
+      let '(rk, n2) := resolve_m e fs cur ca n1 k in
+      (rb ++ rk, n2)
+  | Func None ps b k =>
+      let '(rp, n1) := resolve_m ((n, false, headdecls ps) :: e) n n false (S n) ps in
+      let '(rb, n2) := resolve_m ((n, false, headdecls ps ++ vardecls b ++ lexdecls b) :: e) n n false n1 b in
+      let '(rk, n3) := resolve_m e fs cur ca n2 k in
+      (rp ++ rb ++ rk, n3)
+  | Func (Some f) ps b k =>
+      let '(rp, n1) := resolve_m ((n, false, headdecls ps ++ [f]) :: e) n n false (S n) ps in
+      let '(rb, n2) := resolve_m ((n, false, headdecls ps ++ vardecls b ++ lexdecls b ++ [f]) :: e) n n false n1 b in
+      let '(rk, n3) := resolve_m e fs cur ca n2 k in
+      (TBind n false f :: rp ++ rb ++ rk, n3)
+  | Arrow ps b k =>
+      let '(rp, n1) := resolve_m ((n, false, headdecls ps) :: e) n n false (S n) ps in
+      let '(rb, n2) := resolve_m ((n, false, headdecls ps ++ vardecls b ++ lexdecls b) :: e) n n false n1 b in
+      let '(rk, n3) := resolve_m e fs cur ca n2 k in
+      (rp ++ rb ++ rk, n3)
+  | ArrowId x b k =>
+      let '(rb, n1) := resolve_m ((n, false, [x] ++ vardecls b ++ lexdecls b) :: e) n n false (S n) b in
+      let '(rk, n2) := resolve_m e fs cur ca n1 k in
+      (TBind n false x :: rb ++ rk, n2)
+  | Paren hd k =>
+      let '(rh, n1) := resolve_m e fs cur ca (S n) hd in
+      let '(rk, n2) := resolve_m e fs cur ca n1 k in
+      (rh ++ rk, n2)
+  | For hd b k =>
+      let '(rh, n1) := resolve_m ((n, false, lexdecls hd) :: e) fs n false (S n) hd in
+      let '(rb, n2) := resolve_m ((n, false, lexdecls hd ++ lexdecls b) :: e) fs n false n1 b in
+      let '(rk, n3) := resolve_m e fs cur ca n2 k in
+      (rh ++ rb ++ rk, n3)
+  | Catch hd b k =>
+      let '(rh, n1) := resolve_m ((n, false, headdecls hd) :: e) fs n false (S n) hd in
+      let '(rb, n2) := resolve_m ((n, false, headdecls hd ++ lexdecls b) :: e) fs n false n1 b in
+      let '(rk, n3) := resolve_m e fs cur ca n2 k in
+      (rh ++ rb ++ rk, n3)
+  | Class None ms k =>
+      let '(rm, n1) := resolve_m e fs n false (S n) ms in
+      let '(rk, n2) := resolve_m e fs cur ca n1 k in
+      (rm ++ rk, n2)
+  | Class (Some c) ms k =>
+      let '(rm, n1) := resolve_m ((n, false, [c]) :: e) fs n false (S n) ms in
+      let '(rk, n2) := resolve_m e fs cur ca n1 k in
+      (TBind n false c :: rm ++ rk, n2)
+  end.
+
+Definition spec_resolve_m (p : prog) : list target :=
+  fst (resolve_m [(O, false, vardecls p ++ lexdecls p)] O O false 1 p).
+
+(* no name is bound both in an auxiliary scope and in the main scope of the same parser Scope *)
+Definition aux_distinct (ts : list target) : bool :=
+  forallb (fun t => match t with
+                    | TBind s true x => negb (existsb (target_eqb (TBind s false x)) ts)
+                    | _ => true
+                    end) ts.
+
+(* [core_x]: [core_d] and
+     - function expressions with a name that is not also a parameter or a declaration of the body
+       (c04-es:funcexpr-name-redeclared),
+     - loops whose head (let / const / var declarations, initialisers, the iterated expression) mentions no
+       name that the loop body declares lexically, and whose var names differ from the lexical names of head and
+       body (c04-es:loop-head-shadowed-in-body and its mirror image for initialisers). *)
+Fixpoint core_x (p : prog) : bool :=
+  match p with
+  | Done => true
+  | Ref _ k => core_x k
+  | Decl d _ k => (match d with DVar | DFun | DLex => true | _ => false end) && core_x k
+  | Block b k => core_x b && core_x k
+  | Func nm ps b k =>
+      pcore_x ps && disjointb (default_names ps) (vardecls b ++ lexdecls b) && core_x b && core_x k
+      && (match nm with Some f => negb (mem f (headdecls ps ++ vardecls b ++ lexdecls b)) | None => true end)
+  | Arrow ps b k =>
+      pcore_x ps && disjointb (default_names ps) (vardecls b ++ lexdecls b) && core_x b && core_x k
+  | For hd b k =>
+      core_x hd && core_x b && core_x k
+      && disjointb (allnames hd) (lexdecls b) && disjointb (vardecls hd) (lexdecls hd ++ lexdecls b)
+  | Catch hd b k => catch_params_only hd && disjointb (headdecls hd) (vardecls b) && core_x b && core_x k
+  | Class None ms k => core_x ms && is_nil (lexdecls ms) && is_nil (vardecls ms) && core_x k
+  | _ => false
+  end
+with pcore_x (ps : prog) : bool :=
+  match ps with
+  | Done => true
+  | Decl DParam _ k => pcore_x k
+  | Ref x k => negb (mem x (headdecls k)) && pcore_x k
+  | Func nm a b k =>
+      pcore_x a && disjointb (default_names a) (vardecls b ++ lexdecls b) && core_x b
+      && disjointb (allnames a ++ allnames b) (headdecls k) && pcore_x k
+      && (match nm with Some f => negb (mem f (headdecls a ++ vardecls b ++ lexdecls b)) && negb (mem f (headdecls k)) | None => true end)
+  | Arrow a b k =>
+      pcore_x a && disjointb (default_names a) (vardecls b ++ lexdecls b) && core_x b
+      && disjointb (allnames a ++ allnames b) (headdecls k) && pcore_x k
+  | Class None ms k =>
+      core_x ms && is_nil (lexdecls ms) && is_nil (vardecls ms) && disjointb (allnames ms) (headdecls k) && pcore_x k
+  | _ => false
+  end.
+
 (* ---- comparing partitions -------------------------------------------------------------------- *)
 (* canonical numbering of a list by first occurrence: two lists induce the same partition of
    positions iff their canonical numberings are equal *)
